@@ -124,6 +124,19 @@ def check(pid, tier, seed):
         assum, assum_err = (None, "")
         if rprops["ok"]:
             assum, assum_err = assumptions_of(pid, thms)
+        # theorems shared by several properties (e.g. the IEEE-754 bridge), kept in their own Props file
+        for extra in P.get("extra_props", []):
+            rx = L.coq_build(["Props/%s.vo" % extra])
+            if not rx["ok"]:
+                rprops = {"ok": False, "failing_file": rx["failing_file"], "error": rx["error"]}
+                continue
+            xt = theorem_names("Props/%s.v" % extra)
+            xa, xerr = assumptions_of(extra, xt)
+            if xa is None:
+                assum, assum_err = None, xerr
+            elif assum is not None:
+                assum.update({"%s.%s" % (extra, k): v for k, v in xa.items()})
+            thms = thms + ["%s.%s" % (extra, t) for t in xt]
         bad_axioms = []
         if assum:
             for t, axs in assum.items():
@@ -136,72 +149,99 @@ def check(pid, tier, seed):
         drv_ok, drv_log = (False, "model does not compile")
         if rmodel["ok"]:
             drv_ok, drv_log = L.build_driver()
-        # 5. correspondence
-        cases = P["gen"](tier, rng)  # list of (caseline_without_id, meta)
-        lines = ["%d\t%s" % (i, c[0]) for i, c in enumerate(cases)]
-        impl, ierr = L.run_impl(lines, "debug")
-        impl_rel = {}
-        if need_release:
-            impl_rel, ierr2 = L.run_impl(lines, "release")
-            ierr += ierr2
-        mlines = [l for l, c in zip(lines, cases) if not c[1].get("impl_only")]
-        model, merr = (L.run_model(mlines, env_extra=P.get("model_env")) if drv_ok else ({}, ["driver unavailable: " + drv_log[-300:]]))
-        disagreements = []
-        for i, c in enumerate(cases):
-            k = str(i)
-            a = impl.get(k)
-            m = model.get(k)
-            if c[1].get("impl_only"):
-                if a is None:
-                    disagreements.append((i, a, m, "missing"))
-                continue
-            if a is None or m is None:
-                disagreements.append((i, a, m, "missing"))
-                continue
-            if not L.same_outcome(a, m):
-                disagreements.append((i, a, m, "debug"))
-            elif need_release and not L.same_outcome(impl_rel.get(k, ""), m):
-                disagreements.append((i, impl_rel.get(k), m, "release"))
-        corr_ok = drv_ok and not disagreements and not ierr and not merr
-        report["cases"] = len(cases)
-        report["disagreements"] = len(disagreements)
-        # 6. the property's own oracle on the implementation's outputs (always; a test, not a proof)
-        oracle_fail = []
-        oracle = P.get("oracle")
+        # 5. correspondence + 6. the property's own oracle, chunk by chunk (a generator may yield several chunks)
+        gen = P["gen"](tier, rng)
+        chunks = [gen] if isinstance(gen, list) else gen
         known = load_known()
         known_here = [k for k in known.get("findings", []) if k["property"] == pid]
-        if oracle:
+        oracle = P.get("oracle")
+        ncases = 0
+        disagreements = []      # (caseline, impl, model, profile)   first 50
+        ndis = 0
+        oracle_fail = []        # (caseline, meta, profile, out, why, model_out)  first 200
+        nfail = 0
+        ierr, merr = [], []
+        nontrivial = set()
+        hist, kinds = {}, {}
+        samples = []
+        nt = P.get("nontrivial", props.default_nontrivial)
+        for cases in chunks:
+            lines = ["%d\t%s" % (i, c[0]) for i, c in enumerate(cases)]
+            impl, e1 = L.run_impl(lines, "debug")
+            ierr += e1
+            impl_rel = {}
+            if need_release:
+                impl_rel, e2 = L.run_impl(lines, "release")
+                ierr += e2
+            mlines = [l for l, c in zip(lines, cases) if not c[1].get("impl_only")]
+            if drv_ok:
+                model, e3 = L.run_model(mlines, env_extra=P.get("model_env"))
+                merr += e3
+            else:
+                model = {}
+                merr = ["driver unavailable: " + drv_log[-300:]]
             for i, c in enumerate(cases):
-                a = impl.get(str(i))
-                if a is None:
-                    continue
-                for prof, out in (("debug", a), ("release", impl_rel.get(str(i)))):
-                    if out is None:
-                        continue
-                    why = oracle(c, out, model.get(str(i)))
-                    if why:
-                        oracle_fail.append((i, prof, out, why))
-                        break
-        if P.get("post"):
-            for (i, why) in P["post"](cases, impl, model):
-                oracle_fail.append((i, "debug", impl.get(str(i), ""), why))
+                k = str(i)
+                a = impl.get(k)
+                m = model.get(k)
+                cls = props.outcome_class(a or "")
+                hist[cls] = hist.get(cls, 0) + 1
+                kd = c[1].get("kind", c[0].split("\t")[0])
+                kinds[kd] = kinds.get(kd, 0) + 1
+                if nt(c, a or ""):
+                    nontrivial.add(hash(c[0]))
+                if c[1].get("impl_only"):
+                    if a is None:
+                        ndis += 1
+                        if len(disagreements) < 50:
+                            disagreements.append((c[0], a, m, "missing"))
+                elif a is None or m is None:
+                    ndis += 1
+                    if len(disagreements) < 50:
+                        disagreements.append((c[0], a, m, "missing"))
+                elif not L.same_outcome(a, m):
+                    ndis += 1
+                    if len(disagreements) < 50:
+                        disagreements.append((c[0], a, m, "debug"))
+                elif need_release and not L.same_outcome(impl_rel.get(k, ""), m):
+                    ndis += 1
+                    if len(disagreements) < 50:
+                        disagreements.append((c[0], impl_rel.get(k), m, "release"))
+                if oracle and a is not None:
+                    for prof, out in (("debug", a), ("release", impl_rel.get(k))):
+                        if out is None:
+                            continue
+                        why = oracle(c, out, m)
+                        if why:
+                            nfail += 1
+                            if len(oracle_fail) < 200:
+                                oracle_fail.append((c[0], c[1], prof, out, why, m))
+                            break
+            if P.get("post"):
+                for (i, why) in P["post"](cases, impl, model):
+                    nfail += 1
+                    if len(oracle_fail) < 200:
+                        oracle_fail.append((cases[i][0], cases[i][1], "debug", impl.get(str(i), ""), why, model.get(str(i))))
+            if len(samples) < 8:
+                step = max(1, len(cases) // 4)
+                samples += [{"case": c[0][:300], "impl": impl.get(str(i), "")[:300]} for i, c in list(enumerate(cases))[::step][:4]]
+            ncases += len(cases)
+            del impl, model, impl_rel, lines, mlines, cases
+        corr_ok = drv_ok and not ndis and not ierr and not merr
+        report["cases"] = ncases
+        report["disagreements"] = ndis
         special = {"failures": [], "coverage": {}}
         if P.get("special"):
             special = P["special"](tier, rng, hooks)
         # 7. verdict
-        known_hits = []
         real_fail = []
-        for (i, prof, out, why) in oracle_fail:
-            kf = props.match_known(known_here, cases[i], out)
-            if kf:
-                known_hits.append((kf, cases[i], out))
-            else:
-                real_fail.append((i, prof, out, why))
-        # known-finding witnesses are replayed explicitly
+        for (cl, meta, prof, out, why, mo) in oracle_fail:
+            if not props.match_known(known_here, (cl, meta), out):
+                real_fail.append((cl, meta, prof, out, why, mo))
         kf_lines = props.replay_known(known_here, impl_runner=L.run_impl)
         for kfl in kf_lines:
             print(kfl)
-        real_fail.sort(key=lambda f: len(cases[f[0]][0]))  # report the shortest failing case
+        real_fail.sort(key=lambda f: len(f[0]))  # report the shortest failing case
         rc = 0
         if special["failures"] and not real_fail:
             sf = special["failures"][0]
@@ -211,9 +251,9 @@ def check(pid, tier, seed):
             print("VIOLATION property=%s replay=%s%s" % (pid, path, "" if sf.get("has_input", True) else " no-failing-input-found"))
             rc = 1
         elif real_fail:
-            i, prof, out, why = real_fail[0]
-            payload = {"property": pid, "kind": "failing-input", "case": cases[i][0], "meta": cases[i][1], "profile": prof,
-                       "observed": out, "model": model.get(str(i)), "why": why, "more": len(real_fail) - 1,
+            cl, meta, prof, out, why, mo = real_fail[0]
+            payload = {"property": pid, "kind": "failing-input", "case": cl, "meta": meta, "profile": prof,
+                       "observed": out, "model": mo, "why": why, "more": len(real_fail) - 1,
                        "how_to_replay": "python3 tools/vp.py replay <this file>"}
             path = write_replay(pid, payload)
             print("VIOLATION property=%s replay=%s" % (pid, path))
@@ -235,23 +275,14 @@ def check(pid, tier, seed):
             if ierr or merr:
                 what.append("runner errors: %s %s" % (ierr[:2], merr[:2]))
             if disagreements:
-                i, a, m, prof = disagreements[0]
-                what.append("correspondence: %d case(s) disagree, first: %s" % (len(disagreements), cases[i][0] if i < len(cases) else i))
+                what.append("correspondence: %d case(s) disagree, first: %s" % (ndis, disagreements[0][0][:300]))
             payload = {"property": pid, "kind": "obligation-broken", "what": what,
                        "theorems": thms, "coq_error": rprops.get("error", "")[-3000:],
-                       "first_disagreements": [{"case": cases[i][0], "impl": a, "model": m, "profile": prof} for (i, a, m, prof) in disagreements[:10]]}
+                       "first_disagreements": [{"case": cl[:2000], "impl": a, "model": m, "profile": prof} for (cl, a, m, prof) in disagreements[:10]]}
             path = write_replay(pid, payload)
             print("VIOLATION property=%s replay=%s no-failing-input-found" % (pid, path))
             rc = 1
         # 8. evidence
-        nontrivial = set()
-        hist = {}
-        for i, c in enumerate(cases):
-            a = impl.get(str(i), "")
-            cls = props.outcome_class(a)
-            hist[cls] = hist.get(cls, 0) + 1
-            if P.get("nontrivial", props.default_nontrivial)(c, a):
-                nontrivial.add(c[0])
         trusted = ["Coq 8.16.1 kernel (coqc, vm_compute; no native_compute)",
                    "axioms: " + (", ".join(sorted({a for axs in (assum or {}).values() for a in axs})) or "none (closed under the global context)"),
                    "table translator tools/vplib.py gen_tables + hooks verif::{operator_props,token_props,char_class}",
@@ -261,12 +292,12 @@ def check(pid, tier, seed):
                "trusted_base": trusted,
                "theorems": thms,
                "assumptions_per_theorem": assum or {},
-               "programs": len(cases), "disagreements_checked": len(cases), "disagreements": len(disagreements),
-               "evaluations": len(cases) * (2 if need_release else 1), "distinct_nontrivial": len(nontrivial),
+               "programs": ncases, "disagreements_checked": ncases, "disagreements": ndis, "oracle_failures": nfail,
+               "evaluations": ncases * (2 if need_release else 1), "distinct_nontrivial": len(nontrivial),
                "rule": P.get("rule", ""),
                "outcome_histogram": hist,
-               "case_kinds": props.kind_histogram(cases),
-               "samples": [{"case": c[0][:300], "impl": impl.get(str(i), "")[:300]} for i, c in list(enumerate(cases))[:: max(1, len(cases) // 6)][:8]],
+               "case_kinds": kinds,
+               "samples": samples[:8],
                "exhaustive": bool(P.get("exhaustive", False)),
                "tables_regenerated": tb["ok"], "interface_translated": iface["ok"], "hooks": hooks,
                "profiles": ["debug"] + (["release"] if need_release else []),
@@ -288,7 +319,8 @@ def corr(pid, tier, seed):
     if not ok:
         print(lg[-2000:])
         return 2
-    cases = P["gen"](tier, rng)
+    g = P["gen"](tier, rng)
+    cases = g if isinstance(g, list) else [c for ch in g for c in ch]
     lines = ["%d\t%s" % (i, c[0]) for i, c in enumerate(cases)]
     impl, ierr = L.run_impl(lines, "debug")
     model, merr = L.run_model([l for l, c in zip(lines, cases) if not c[1].get("impl_only")], env_extra=P.get("model_env"))
